@@ -514,17 +514,18 @@ PROPERTIES = {
                  "simulation builder with include_cfg before and after the nodes (and their parents) are created, before creation with nodes that read their own properties while they are constructed, and with a builder option (with_stack) applied between the include and the creation; the same through the builder-chain form with_cfg and through include_cfg_file (temporary file), each before and after the nodes exist: props_keys and prop_raw values. Oracle = "
                  "independent matcher (split at '.', '<any>' matches exactly one segment, the rest is the property name, no '<any>' in the name): key sets equal, "
                  "each value is the value of a matching entry, no panic. Typed reads: random sequences of prop::<u64 / String / bool / Vec<u32> / f64> on four "
-                 "keys: a successful read pins the type, other types must fail, the pinned / natural type stays readable; in half of the sequences a second configuration is included between the reads (specific or wildcard keys) that carries a value of another type for the properties already typed: type and value must survive. Non-trivial = case with a wildcard "
+                 "keys: a successful read pins the type, other types must fail, the pinned / natural type stays readable; in half of the sequences a second configuration is included between the reads (specific or wildcard keys) that carries a value of another type for the properties already typed: type and value must survive. Structured-value probe (every 20th case): 1..4 entries with distinct one-segment property names that are no module names, one of them with a mapping value {lo: v, hi: 9}, keys specific or with wildcards; the addressed module (depth 1..3) must show every entry that addresses it under its property name with its own value (mapping read back as a mapping with lo = v, hi = 9), through Cfg::capture_for_into and include_cfg before / after node creation; additional keys are not judged in this probe. Non-trivial = case with a wildcard "
                  "entry and a module that receives something; distinct = hash of the case."),
-        "assumptions": ["keys are quoted YAML strings, values integers"],
+        "assumptions": ["keys are quoted YAML strings, values integers (one mapping value in the structured-value probe, where only presence and value of the addressed properties are judged)"],
         "stages": [
             native("cfg", "desmon", "c17", tiers=QT, timeout={"quick": 900, "thorough": 5400}),
         ],
         "floor": {
             "quick": {"module_property_sets_compared": 1000000, "wildcard_entries": 150000, "paths_with_matching_entries": 100000,
                       "cases_with_non_ascii_names": 50000, "cases_with_prefix_sharing_names": 40000, "typed_reads": 40000,
-                      "typed_sequences_with_a_late_include": 1500},
-            "thorough": {"module_property_sets_compared": 20000000, "wildcard_entries": 3000000, "typed_reads": 30000},
+                      "typed_sequences_with_a_late_include": 1500, "structured_value_property_sets_checked": 9000},
+            "thorough": {"module_property_sets_compared": 20000000, "wildcard_entries": 3000000, "typed_reads": 30000,
+                         "structured_value_property_sets_checked": 150000},
         },
     },
     "C18": {
